@@ -118,6 +118,10 @@ TrChk ==
   /\ IsEv("PChk")
   /\ (On("C05") \/ On("C06")) => (FullOK(obj[Ev.id], Ev) /\ Matrix(obj[Ev.id]) = bits[Ev.id])
   /\ ObsOK(obj[Ev.id], Ev.o)
+  \* the kxp register read from the image of an un-merged sketch (kxp * 2^64 on five limbs)
+  /\ ((On("C01") \/ On("C05")) /\ "kxp" \in DOMAIN Ev) =>
+        \E want \in {KxpW(bits[Ev.id], obj[Ev.id].lgk)} :
+           KxpClose([i \in 1..5 |-> Ev.kxp[i]], want, obj[Ev.id].lgk)
   /\ On("C12") => ImgOK(obj[Ev.id], Ev)
   /\ (On("C12") /\ "sel" \in DOMAIN Ev) => SelOK(obj[Ev.id], Ev)
   /\ On("C18") => Ev.len <= Ev.maxlen \/ Ev.over     \* counted by the driver, see C18
